@@ -13,6 +13,7 @@
 EXTENDS Integers, Sequences, TLC, Json, IOUtils
 
 Rec == ndJsonDeserialize(IOEnv.TRACE)
+Which == IOEnv.SCALEPROP        \* "C15": every bound; "C01": nothing premature; "C03": everything collected
 
 VARIABLES l, bad
 vars == <<l, bad>>
@@ -22,12 +23,14 @@ RatioX10 == 40         \* per-adoption CPU time of the 60000-wheel <= 4 x that o
 
 Ok(ln) ==
   CASE ln.k = "scale" ->
-         /\ ln.ntrace = 1
-         /\ ln.nvisit <= ln.n
-         /\ ln.npop <= ln.links + 1
-         /\ ln.maxdepth <= MaxDepth
-         /\ ln.nd = ln.n /\ ~ln.alive
-         /\ ln.ratio_x10 <= RatioX10
+         /\ Which \in {"C15", "C03"} => ln.nd = ln.n /\ ~ln.alive
+         /\ Which \in {"C15", "C01"} => ln.premature = 0   \* "+held" runs: nothing dies while a member is held
+         /\ Which = "C15" =>
+              /\ ln.ntrace = 1
+              /\ ln.nvisit <= ln.n
+              /\ ln.npop <= ln.links + 1
+              /\ ln.maxdepth <= MaxDepth
+              /\ ln.ratio_x10 <= RatioX10
     [] ln.k = "scale_begin" -> TRUE
     [] ln.k \in {"scale_died", "scale_panic"} -> FALSE     \* stack overflow / crash
     [] OTHER -> TRUE
